@@ -33,6 +33,9 @@ type rpcRec struct {
 	AtNs   int64  `json:"at_ns"`         // virtual time of the call
 	Ok     bool   `json:"ok"`            // locked / unlocked
 	Err    string `json:"err,omitempty"` // pb error code name
+	Size   *int32 `json:"size,omitempty"`    // request fields (Lock, TryLock)
+	Lt     *int32 `json:"lt,omitempty"`
+	RenewT int32  `json:"renew_t,omitempty"` // request field (Renew)
 }
 
 // transport implements pb.LDLMClient over the real service object: no network, no serialisation.
@@ -83,7 +86,7 @@ func (t *transport) TryLock(ctx context.Context, in *pb.TryLockRequest, _ ...grp
 	at := int64(time.Since(t.start))
 	m, err := t.svc.TryLock(t.conn, in)
 	if err == nil {
-		t.rec(rpcRec{Method: "TryLock", Name: in.Name, Key: m.Key, AtNs: at, Ok: m.Locked, Err: errCode(m.Error)})
+		t.rec(rpcRec{Method: "TryLock", Name: in.Name, Key: m.Key, AtNs: at, Ok: m.Locked, Err: errCode(m.Error), Size: in.Size, Lt: in.LockTimeoutSeconds})
 	}
 	return m, err
 }
@@ -100,7 +103,7 @@ func (t *transport) Unlock(ctx context.Context, in *pb.UnlockRequest, _ ...grpc.
 func (t *transport) Renew(ctx context.Context, in *pb.RenewRequest, _ ...grpc.CallOption) (*pb.LockResponse, error) {
 	at := int64(time.Since(t.start))
 	// recorded BEFORE the call: a renew that is in flight when Unlock returns was sent before it
-	i := t.rec(rpcRec{Method: "Renew", Name: in.Name, Key: in.Key, AtNs: at, Err: "(in flight)"})
+	i := t.rec(rpcRec{Method: "Renew", Name: in.Name, Key: in.Key, AtNs: at, Err: "(in flight)", RenewT: in.LockTimeoutSeconds})
 	m, err := t.svc.Renew(t.conn, in)
 	if err == nil {
 		t.mu.Lock()
